@@ -128,6 +128,17 @@ def case_ops(ctx, cfg):
         ctx.trace()
         if isinstance(r0, BaseException):
             ctx.tally("base-call-raises:" + type(r0).__name__)
+        # the same objects given as integer arrays (an integer representative such as [1, 3, 2] of a fractional point)
+        if all(isinstance(x, (int, np.integer)) for s_ in spec for x in np.ravel(np.array(s_, dtype=object))):
+            iargs, e_ = ctx.call(lambda: [C.build(G, k, s_, dtype=np.int64) for k, s_ in zip(op.kinds, spec)])
+            if e_ is None:
+                ri = run(ctx, op.fn, G, *iargs)
+                ctx.trace()
+                ctx.state((name, ci, "int64"))
+                why = same_result(op.res, r0, ri)
+                if why:
+                    ctx.fail(f"{name}:integer-dtype-representative", name, {"operation": name, "specs": spec, "dtype": "int64"}, r0 if not isinstance(r0, BaseException) else repr(r0), ri if not isinstance(ri, BaseException) else repr(ri), why)
+                    return
         for pos, kind in enumerate(op.kinds):
             ncomp = C.ncomponents(kind)
             for comp in range(ncomp):
